@@ -190,6 +190,13 @@ type scObject struct {
 	do       func(op scOp) []byte
 }
 
+// scWithInput ties an object to the caller-provided bytes it was built from:
+// a read-only operation must not write into its input either.
+type scWithInput struct {
+	Obj   any
+	Input []byte
+}
+
 func scResult(b []byte, err error) []byte {
 	if err != nil {
 		return append([]byte("ERR:"), err.Error()...)
@@ -393,11 +400,12 @@ func (e *schedEngine) build(c scCfg, x *X, plane *Plane) (mk func() *scObject) {
 		}
 		if c.Object == "pkcs7" {
 			return func() *scObject {
-				p7, err := pkcs7.ParsePKCS7(blob)
+				in := append([]byte(nil), blob...)
+				p7, err := pkcs7.ParsePKCS7(in)
 				if err != nil {
 					harnessf("sched: ParsePKCS7: %v", err)
 				}
-				return &scObject{dumpRoot: p7, do: func(op scOp) []byte {
+				return &scObject{dumpRoot: &scWithInput{p7, in}, do: func(op scOp) []byte {
 					switch op.Op {
 					case "Verify":
 						ok, err := p7.Verify(pk.Cert)
@@ -414,12 +422,13 @@ func (e *schedEngine) build(c scCfg, x *X, plane *Plane) (mk func() *scObject) {
 			}
 		}
 		return func() *scObject {
-			ac, err := authenticode.ParseAuthenticode(blob)
+			in := append([]byte(nil), blob...)
+			ac, err := authenticode.ParseAuthenticode(in)
 			if err != nil {
 				harnessf("sched: ParseAuthenticode: %v", err)
 			}
 			rd := &SimReader{data: hashed, p: plane}
-			return &scObject{dumpRoot: ac, do: func(op scOp) []byte {
+			return &scObject{dumpRoot: &scWithInput{ac, in}, do: func(op scOp) []byte {
 				switch op.Op {
 				case "Verify":
 					ok, err := ac.Verify(pk.Cert, io.NewSectionReader(rd, 0, int64(len(hashed))))
@@ -526,14 +535,20 @@ func (e *schedEngine) Exec(tr *Trace, x *X) {
 		plane = nil // free-running clients: the medium must be stateless (no call counter to race on)
 	}
 	mk := e.build(c, x, plane)
-	// sequential baseline on a twin object
-	twin := mk()
+	// sequential baseline on a twin object. For free-running clients it is computed AFTER the concurrent
+	// phase, so that the very first calls of the process (lazy package-level initialisation) are the concurrent ones.
 	base := map[string][]byte{}
-	for _, op := range ops {
-		k := fmt.Sprint(op.Op, op.Key)
-		if _, ok := base[k]; !ok {
-			base[k] = guardResult(func() []byte { return twin.do(op) })
+	baseline := func() {
+		twin := mk()
+		for _, op := range ops {
+			k := fmt.Sprint(op.Op, op.Key)
+			if _, ok := base[k]; !ok {
+				base[k] = guardResult(func() []byte { return twin.do(op) })
+			}
 		}
+	}
+	if c.Mode != "free" {
+		baseline()
 	}
 	obj := mk()
 	snap0 := deepDump(obj.dumpRoot)
@@ -631,6 +646,7 @@ func (e *schedEngine) Exec(tr *Trace, x *X) {
 		}
 		close(start)
 		wg.Wait()
+		baseline()
 		x.Steps += len(ops)
 		for i := range ops {
 			x.Logf("op %d c%d %s -> %s", i, ops[i].C%c.Clients, ops[i].Op, shortHex(results[i]))
